@@ -114,6 +114,9 @@ static var thread_main(var args) {
     atomic_store(&handoff_ok[idx], ok); } uint64_t seed = (uint64_t)c_int(get(args, $I(1))); int rounds = (int)c_int(get(args, $I(2)));
   my_idx = idx;
   work(seed, rounds, &res_thr[idx], 1, idx);
+  /* a consumer "releasing" what it was handed: the object belongs to the parent's collector, this thread's collector does not
+     know it - the call must leave it alone (no finaliser on this thread, the parent still uses the object) */
+  { volatile int dummy = 0; try { del(get(current(Thread), $S("handoff"))); } catch (e) { dummy = 1; } (void)dummy; }
   for (int i = 0; i < 40; i++) { var g = new(TProbe, $I(SLOW_MARK)); (void)g; }      /* left to the thread's teardown */
   res_thr[idx].ended = atomic_fetch_add(&order_ticket, 1);
   atomic_store(&fn_done[idx], 1);
